@@ -317,4 +317,55 @@ def handoverRun (busy : List Nat) (c0 : Cfg) (hops : List HOp) : List HObs :=
   let r := observe [] (M.init busy c0.addrs) "ok" none none
   r.2.2 :: runOps 2 r.2.1 r.1 hops
 
+/-! ### servers of several kinds (stream c07.mixed)
+
+casket hands sockets over per ADDRESS and per KIND: the listener of the old server for an address goes to the new server for
+that address, and so does its packet conn.  In this machine a socket is identified by a number; the TCP listener of address
+`a` is socket `2a`, its packet conn is socket `2a+1`, so the two kinds of one address are handed over independently and
+nothing is ever handed over across addresses (the listen step for `x` only looks at what the old instance holds for `x`). -/
+
+inductive MKind where
+  | t | u | b
+deriving DecidableEq, Repr
+
+structure MSrv where
+  kind : MKind
+  addr : Nat
+deriving DecidableEq, Repr
+
+def MSrv.codes (s : MSrv) : List Nat :=
+  match s.kind with
+  | .t => [2 * s.addr]
+  | .u => [2 * s.addr + 1]
+  | .b => [2 * s.addr, 2 * s.addr + 1]
+
+/-- the sockets a list of servers needs, in the order in which `startServers` obtains them -/
+def mixedCfg (srvs : List MSrv) (fail : Bool) : Cfg := { addrs := srvs.flatMap MSrv.codes, failSetup := fail }
+
+/-- descriptors and answer of a fresh connection (datagram), for every observed socket -/
+def observeCells (m : M) : List Nat → M × List (Nat × String)
+  | [] => (m, [])
+  | x :: xs =>
+    let q := probe m x
+    let r := observeCells q.1 xs
+    (r.1, (m.fds x, q.2) :: r.2)
+
+structure MObs where
+  res : String
+  cells : List (Nat × String)
+  /-- some socket was answered by the server of ANOTHER address, or by two different servers (never in the model) -/
+  mis : Bool
+deriving DecidableEq, Repr
+
+def mixedOps (codes : List Nat) : Nat → M → List Cfg → List MObs
+  | _, _, [] => []
+  | g, m, c :: rest =>
+    let m1 := run m (reloadHead g m c ++ [.finish])
+    let r := observeCells m1 codes
+    { res := resOf m1 g, cells := r.2, mis := false } :: mixedOps codes (g + 1) r.1 rest
+
+def mixedRun (busy codes : List Nat) (c0 : Cfg) (cs : List Cfg) : List MObs :=
+  let r := observeCells (M.init busy c0.addrs) codes
+  { res := "ok", cells := r.2, mis := false } :: mixedOps codes 2 r.1 cs
+
 end Casket.Reload
